@@ -16,12 +16,31 @@ import BSModel.Base.PStr
     exactly this list is C01/C02's chain invariant plus the walk of C05/C11, and is checked on every case by the harness. -/
 namespace BS.Copy
 
-/-- an attribute value: a `str` (immutable; subclasses such as `ContentMetaAttributeValue` included) or a list object
-    (`AttributeValueList` or a subclass `cls`) with identity `lid` -/
-inductive AVal where
-  | str (s : PStr)
-  | list (lid : Nat) (cls : Nat) (items : List PStr)
+/-- what an attribute *key* is besides its text: `none` for a plain `str`, `some ⟨prefix, name, namespace⟩` for a
+    `NamespacedAttribute` (a `str` subclass whose text is `prefix:name`; it hashes and compares by that text) -/
+structure NsKey where
+  pfx : Option PStr
+  name : Option PStr
+  ns : Option PStr
 deriving DecidableEq, Repr
+
+abbrev KMeta := Option NsKey
+
+/-- an attribute value: a `str` of class `cls` (0 `str`, 1 `CharsetMetaAttributeValue`, 2 `ContentMetaAttributeValue`,
+    ≥ 3 any other `str` subclass; immutable, its text is what `str.__eq__` and `dict` see), a list object
+    (`AttributeValueList` or a subclass `cls`) with identity `lid`, or one of the non-string values user code can store in a
+    plain `AttributeDict` (`tag["id"] = 2`, test_tree.py test_attribute_modification): an `int`, a `bool`, `None` -/
+inductive AVal where
+  | str (cls : Nat) (s : PStr)
+  | list (lid : Nat) (cls : Nat) (items : List PStr)
+  | int (n : Int)
+  | bool (b : Bool)
+  | none
+deriving DecidableEq, Repr
+
+/-- a dict entry: the key's text, what else the key object is, the value -/
+abbrev AEntry := KMeta × AVal
+abbrev Attrs := List (PStr × AEntry)
 
 /-- the per-tag settings `copy_self` forwards. `cdata`, `preserveWs`, `interesting`, `namespaces`: identity of the object
     the attribute points to (`none` = `None`, resp. an empty `_namespaces`, which `namespaces or {}` re-creates). -/
@@ -38,13 +57,14 @@ structure Settings where
 deriving DecidableEq, Repr
 
 /-- what a `Tag` object holds besides its children. `parserClass`, `dictCls` (class of the `attrs` dict: 0 `AttributeDict`,
-    1 `HTMLAttributeDict`, 2 `XMLAttributeDict`, ≥ 3 custom) and `avlCls` (`attribute_value_list_class`: 0 = the stock
-    `AttributeValueList`) are the three fields a copy does **not** keep; nothing in `==`, `hash`, `decode` reads them. -/
+    1 `HTMLAttributeDict`, 2 `XMLAttributeDict`, ≥ 3 custom without processing) is kept by a copy since the repair of
+    `copy_self`; `parserClass` and `avlCls` (`attribute_value_list_class`: 0 = the stock `AttributeValueList`) are the two
+    fields a copy does **not** keep; nothing in `==`, `hash`, `decode` reads them. -/
 structure TagData where
   name : PStr
   pfx : Option PStr
   ns : Option PStr
-  attrs : List (PStr × AVal)   -- the dict in insertion order
+  attrs : Attrs                -- the dict in insertion order
   st : Settings
   parserClass : Option Nat
   dictCls : Nat
@@ -68,27 +88,88 @@ def isXml (inh : Option Bool) (d : TagData) : Option Bool :=
   | some b => some b
   | none => inh
 
+/-! ### the processing attribute dictionaries -/
+
+/-- `str(n)` of an `int` -/
+def decimal (n : Int) : PStr := (toString n).toList.map Char.toNat
+
+/-- element.py `HTMLAttributeDict.__setitem__`: `value = key.name if isinstance(key, NamespacedAttribute) else key`
+    (`key.name` may be `None`) -/
+def boolName (k : PStr) : KMeta → AVal
+  | Option.none => .str 0 k
+  | some ⟨_, some nm, _⟩ => .str 0 nm
+  | some ⟨_, Option.none, _⟩ => .none
+
+/-- `HTMLAttributeDict.__setitem__` (element.py:267-300): `False`/`None` remove the attribute, `True` becomes the
+    attribute's name, numbers become their `str`; everything else is stored as it is. `Option.none` = nothing is stored. -/
+def coerceHtml (k : PStr) (m : KMeta) : AVal → Option AVal
+  | .bool false => none
+  | .none => none
+  | .bool true => some (boolName k m)
+  | .int n => some (.str 0 (decimal n))
+  | v => some v
+
+/-- `XMLAttributeDict.__setitem__` (element.py:233-262): `None` becomes `""`, a `bool` is kept, other numbers become
+    their `str` -/
+def coerceXml : AVal → Option AVal
+  | .none => some (.str 0 [])
+  | .int n => some (.str 0 (decimal n))
+  | v => some v
+
+/-- `d[key] = value` for a dict of class `dictCls`: what ends up stored. A plain `AttributeDict` (0) and the custom
+    classes of the harness (≥ 3) store the value as it is. -/
+def coerce (dictCls : Nat) (k : PStr) (m : KMeta) (v : AVal) : Option AVal :=
+  if dictCls = 1 then coerceHtml k m v else if dictCls = 2 then coerceXml v else some v
+
+/-- every value in the dict is one its own class would store unchanged — true of every dict filled through its own
+    `__setitem__` (`tag[k] = v`), of every plain `AttributeDict` whatever it holds, of every dict of strings and lists -/
+def Settled (dictCls : Nat) (l : Attrs) : Prop := ∀ e ∈ l, coerce dictCls e.1 e.2.1 e.2.2 = some e.2.2
+
 /-! ### `copy_self` -/
 
-/-- element.py:1685-1692 `for k, v in attrs.items(): if isinstance(v, list): v = v.__class__(v); self.attrs[k] = v`:
-    list values are re-created (same class, same items, new object), strings are stored as they are, key order is kept.
-    (`HTML/XMLAttributeDict.__setitem__` leave `str` and `list` values alone.) -/
-def copyAttrs (next : Nat) : List (PStr × AVal) → List (PStr × AVal) × Nat
-  | [] => ([], next)
-  | (k, .str s) :: r => let q := copyAttrs next r; ((k, .str s) :: q.1, q.2)
-  | (k, .list _ c items) :: r => let q := copyAttrs (next + 1) r; ((k, .list next c items) :: q.1, q.2)
+/-- `new[key] = value` seen from the end of the loop: the stored value (if any) goes in front of what the later
+    iterations add -/
+def pushEntry (k : PStr) (m : KMeta) (ov : Option AVal) (q : Attrs × Nat) : Attrs × Nat :=
+  match ov with
+  | some v' => ((k, m, v') :: q.1, q.2)
+  | Option.none => q
 
-/-- `Tag.copy_self` (element.py:1786-1812): `type(self)(None, None, name, namespace, prefix, attrs, is_xml=self._is_xml,
-    sourceline, sourcepos, can_be_empty_element, cdata_list_attributes, preserve_whitespace_tags,
-    interesting_string_types, namespaces)` then `setattr` of `can_be_empty_element` and `hidden`. With `builder=None`,
-    `Tag.__init__` takes the attribute dict class from `is_xml` (:1666-1669), `known_xml = is_xml` (:1698), and the
-    settings as passed (:1707-1710); `parser=None` gives `parser_class = None` (:1643).
-    `xml` = the original's `_is_xml`. Result: id of the clone, its data, the next free id. -/
+/-- a dict re-processed by its own class: what `new = cls(); for k, v in d.items(): new[k] = v` holds -/
+def settleAttrs (cls : Nat) : Attrs → Attrs
+  | [] => []
+  | (k, m, v) :: r => (pushEntry k m (coerce cls k m v) (settleAttrs cls r, 0)).1
+
+/-- the attribute loop, of `Tag.__init__` (element.py:1685-1692, into a new `HTML/XMLAttributeDict`) before the repair
+    and of `Tag.copy_self` (into a new dict of the original's class) after it:
+    `for key, value in attrs.items(): if isinstance(value, list): value = value.__class__(value); new[key] = value`.
+    List values are re-created (same class, same items, new object); every value goes through the `__setitem__` of the
+    new dict's class `dictCls`; keys (the very same immutable key objects) and their order are kept. The keys of a dict are
+    distinct, so every `new[key] = value` appends (or, for a removed `False`/`None`, does nothing). -/
+def copyAttrs (dictCls : Nat) (next : Nat) : Attrs → Attrs × Nat
+  | [] => ([], next)
+  | (k, m, .list _ c items) :: r => let q := copyAttrs dictCls (next + 1) r; ((k, m, .list next c items) :: q.1, q.2)
+  | (k, m, v) :: r => pushEntry k m (coerce dictCls k m v) (copyAttrs dictCls next r)
+
+/-- `Tag.copy_self` (element.py:1800-1836) **as repaired**: `type(self)(None, None, name, namespace, prefix, attrs,
+    is_xml=self._is_xml, sourceline, sourcepos, can_be_empty_element, cdata_list_attributes, preserve_whitespace_tags,
+    interesting_string_types, namespaces)`, then `clone.attrs = self.attrs.__class__()` filled by the attribute loop, then
+    `setattr` of `can_be_empty_element` and `hidden`. With `builder=None`, `Tag.__init__` sets `known_xml = is_xml`
+    (:1698), the settings as passed (:1707-1710), `parser_class = None` (:1643) and the stock
+    `attribute_value_list_class`. `xml` = the original's `_is_xml`. Result: id of the clone, its data, the next free id. -/
 def copySelf (next : Nat) (d : TagData) (xml : Option Bool) : Nat × TagData × Nat :=
-  let q := copyAttrs (next + 1) d.attrs
+  let q := copyAttrs d.dictCls (next + 1) d.attrs
   (next,
-   { d with attrs := q.1, st := { d.st with knownXml := xml }, parserClass := none,
-            dictCls := if xml == some true then 2 else 1, avlCls := 0 },
+   { d with attrs := q.1, st := { d.st with knownXml := xml }, parserClass := Option.none, avlCls := 0 },
+   q.2)
+
+/-- `Tag.copy_self` **before the repair** (bs4 4.13.0): the clone kept the dict `Tag.__init__` made — an
+    `XMLAttributeDict` when `is_xml` is true, else an `HTMLAttributeDict` (:1666-1669) — so the original's values were
+    processed a second time, by another class than the one that holds them. Kept for `old_copy_self_coerces`. -/
+def copySelfOld (next : Nat) (d : TagData) (xml : Option Bool) : Nat × TagData × Nat :=
+  let cls := if xml == some true then 2 else 1
+  let q := copyAttrs cls (next + 1) d.attrs
+  (next,
+   { d with attrs := q.1, st := { d.st with knownXml := xml }, parserClass := Option.none, dictCls := cls, avlCls := 0 },
    q.2)
 
 /-! ### the event stream and the copying loop -/
@@ -188,6 +269,34 @@ def copySoupImpl (fresh : TagData) (inh : Option Bool) (next : Nat) : Node → O
     | some ⟨n, top :: rest⟩ => some (collapse top rest, n)
     | _ => none
 
+/-- what a `BeautifulSoup` object holds besides being the root tag: the `TreeBuilder` (by identity), `is_xml`, the
+    `parse_only` strainer and the `element_classes` mapping (by identity; `none` = `None` resp. `{}`), and what
+    `prepare_markup` reported about the input -/
+structure SoupInfo where
+  builder : Nat
+  builderIsXml : Bool                      -- `builder.is_xml`
+  isXml : Bool                             -- `self.is_xml`
+  parseOnly : Option Nat
+  elementClasses : Option Nat
+  originalEncoding : Option PStr
+  declaredHtmlEncoding : Option PStr
+  containsReplacementCharacters : Bool
+deriving DecidableEq, Repr
+
+/-- `BeautifulSoup.copy_self` (bs4/__init__.py:492-503): `clone = type(self)("", None, self.builder)` — `__init__` with an
+    instantiated builder keeps that very object (:330-345), sets `is_xml = builder.is_xml` (:379), `parse_only = None` and
+    `element_classes = {}` (the defaults of the call), and takes `original_encoding`, `declared_html_encoding`,
+    `contains_replacement_characters` = `None, None, False` from `prepare_markup("")` (:467-476) — then
+    `clone.original_encoding = self.original_encoding`. -/
+def soupCopySelf (s : SoupInfo) : SoupInfo :=
+  { builder := s.builder, builderIsXml := s.builderIsXml, isXml := s.builderIsXml, parseOnly := none, elementClasses := none,
+    originalEncoding := s.originalEncoding, declaredHtmlEncoding := none, containsReplacementCharacters := false }
+
+/-- `__getstate__`/`__setstate__` keep the whole `__dict__`: everything but the identity of the builder (a pickled copy
+    of it, or a new instance of its class when it is not picklable), the strainer and the mapping (pickled copies) -/
+def soupPickle (fresh : Nat) (s : SoupInfo) : SoupInfo :=
+  { s with builder := fresh, parseOnly := s.parseOnly.map fun _ => fresh + 1, elementClasses := s.elementClasses.map fun _ => fresh + 2 }
+
 /-! ### spec: the obvious recursion, ids allocated in pre-order -/
 
 mutual
@@ -205,24 +314,41 @@ def copySpecL (inh : Option Bool) (next : Nat) : List Node → List Node × Nat
     (a.1 :: b.1, b.2)
 end
 
+mutual
+/-- the tree with every attribute dict re-processed by its own class (the identity on every tree the public API builds) -/
+def settle : Node → Node
+  | .str i c v => .str i c v
+  | .tag i d ks => .tag i { d with attrs := settleAttrs d.dictCls d.attrs } (settleL ks)
+def settleL : List Node → List Node
+  | [] => []
+  | k :: ks => settle k :: settleL ks
+end
+
 /-! ### what a copy keeps: the tree with identities erased -/
 
 inductive SVal where
-  | str (s : PStr)
+  | str (cls : Nat) (s : PStr)
   | list (cls : Nat) (items : List PStr)
+  | int (n : Int)
+  | bool (b : Bool)
+  | none
 deriving DecidableEq, Repr
 
 def AVal.erase : AVal → SVal
-  | .str s => .str s
+  | .str c s => .str c s
   | .list _ c items => .list c items
+  | .int n => .int n
+  | .bool b => .bool b
+  | .none => .none
 
-/-- a tag without identities: name, prefix, namespace, attributes in order (list values with their class), every setting,
-    and `_is_xml` in place of `known_xml` -/
+/-- a tag without identities: name, prefix, namespace, attributes in order (keys with what kind of key object they are,
+    values with their class), the class of the attribute dict, every setting, and `_is_xml` in place of `known_xml` -/
 structure SData where
   name : PStr
   pfx : Option PStr
   ns : Option PStr
-  attrs : List (PStr × SVal)
+  attrs : List (PStr × KMeta × SVal)
+  dictCls : Nat
   canBeEmpty : Option Bool
   cdata : Option Nat
   preserveWs : Option Nat
@@ -239,10 +365,10 @@ inductive Shape where
   | tag (d : SData) (kids : List Shape)
 deriving Repr
 
-def eraseAttrs (l : List (PStr × AVal)) : List (PStr × SVal) := l.map fun kv => (kv.1, kv.2.erase)
+def eraseAttrs (l : Attrs) : List (PStr × KMeta × SVal) := l.map fun kv => (kv.1, kv.2.1, kv.2.2.erase)
 
 def shapeData (d : TagData) (xml : Option Bool) : SData :=
-  { name := d.name, pfx := d.pfx, ns := d.ns, attrs := eraseAttrs d.attrs, canBeEmpty := d.st.canBeEmpty,
+  { name := d.name, pfx := d.pfx, ns := d.ns, attrs := eraseAttrs d.attrs, dictCls := d.dictCls, canBeEmpty := d.st.canBeEmpty,
     cdata := d.st.cdata, preserveWs := d.st.preserveWs, interesting := d.st.interesting, hidden := d.st.hidden,
     sourceline := d.st.sourceline, sourcepos := d.st.sourcepos, namespaces := d.st.namespaces, xml := xml }
 
@@ -257,10 +383,10 @@ end
 
 /-! ### identities -/
 
-def attrIds : List (PStr × AVal) → List Nat
+def attrIds : Attrs → List Nat
   | [] => []
-  | (_, .str _) :: r => attrIds r
-  | (_, .list lid _ _) :: r => lid :: attrIds r
+  | (_, _, .list lid _ _) :: r => lid :: attrIds r
+  | (_, _, _) :: r => attrIds r
 
 mutual
 /-- every object identity of a tree: node ids and attribute value list ids, in pre-order -/
@@ -276,7 +402,7 @@ end
 
 /-- a mutation of one object. Applied to a tree value it changes every occurrence of that object. -/
 inductive Edit where
-  | setAttr (tag : Nat) (k : PStr) (v : AVal)     -- `tag[k] = v`
+  | setAttr (tag : Nat) (k : PStr) (m : KMeta) (v : AVal)   -- `tag[k] = v` (through the `__setitem__` of the tag's dict)
   | delAttr (tag : Nat) (k : PStr)                 -- `del tag[k]`
   | listAppend (lid : Nat) (item : PStr)           -- `tag[k].append(item)` on the list object `lid`
   | listSet (lid : Nat) (items : List PStr)        -- any other in-place change of the list object
@@ -287,28 +413,34 @@ inductive Edit where
   | replace (node : Nat) (by_ : Node)              -- `node.replace_with(by_)`
 
 def Edit.target : Edit → Nat
-  | .setAttr t _ _ => t | .delAttr t _ => t | .listAppend l _ => l | .listSet l _ => l | .setName t _ => t
+  | .setAttr t _ _ _ => t | .delAttr t _ => t | .listAppend l _ => l | .listSet l _ => l | .setName t _ => t
   | .insertKid t _ _ => t | .clear t => t | .remove n => n | .replace n _ => n
 
-def setAssoc (k : PStr) (v : AVal) : List (PStr × AVal) → List (PStr × AVal)
-  | [] => [(k, v)]
-  | (k', w) :: r => if k' == k then (k', v) :: r else (k', w) :: setAssoc k v r
+/-- `dict.__setitem__`: an existing key keeps its position and its key object, a new one is appended -/
+def setAssoc (k : PStr) (m : KMeta) (v : AVal) : Attrs → Attrs
+  | [] => [(k, m, v)]
+  | (k', m', w) :: r => if k' == k then (k', m', v) :: r else (k', m', w) :: setAssoc k m v r
 
 def editVal (e : Edit) : AVal → AVal
-  | .str s => .str s
   | .list lid c items =>
     match e with
     | .listAppend l item => if l = lid then .list lid c (items ++ [item]) else .list lid c items
     | .listSet l new => if l = lid then .list lid c new else .list lid c items
     | _ => .list lid c items
+  | v => v
 
-def editAttrs (e : Edit) (l : List (PStr × AVal)) : List (PStr × AVal) := l.map fun kv => (kv.1, editVal e kv.2)
+def editAttrs (e : Edit) (l : Attrs) : Attrs := l.map fun kv => (kv.1, kv.2.1, editVal e kv.2.2)
 
 /-- the part of an edit that concerns the tag object `i` itself -/
 def editData (e : Edit) (i : Nat) (d : TagData) : TagData :=
   let d := { d with attrs := editAttrs e d.attrs }
   match e with
-  | .setAttr t k v => if t = i then { d with attrs := setAssoc k v d.attrs } else d
+  | .setAttr t k m v =>
+    if t = i then
+      match coerce d.dictCls k m v with
+      | some v' => { d with attrs := setAssoc k m v' d.attrs }
+      | Option.none => { d with attrs := d.attrs.filter fun kv => !(kv.1 == k) }   -- `if key in self: del self[key]`
+    else d
   | .delAttr t k => if t = i then { d with attrs := d.attrs.filter fun kv => !(kv.1 == k) } else d
   | .setName t nm => if t = i then { d with name := nm } else d
   | _ => d
@@ -331,21 +463,35 @@ def applyEditL (e : Edit) : List Node → List Node
   | k :: ks => applyEdit e k :: applyEditL e ks
 end
 
+/-- a history of in-place mutations, applied one after the other -/
+def applyEdits : List Edit → Node → Node
+  | [], t => t
+  | e :: es, t => applyEdits es (applyEdit e t)
+
 /-! ### `==` -/
 
+/-- the number a value is for `int.__eq__` (`bool` is a subclass of `int`: `True == 1`) -/
+def numOf : AVal → Option Int
+  | .int n => some n
+  | .bool b => some (if b then 1 else 0)
+  | _ => Option.none
+
 /-- `==` of two attribute values: `str.__eq__` (by text, whatever the subclass), `list.__eq__` (by items, whatever the
-    subclass); a string never equals a list -/
+    subclass), `int.__eq__` for `int`/`bool`, `None == None`; values of different kinds are never equal -/
 def valEq : AVal → AVal → Bool
-  | .str a, .str b => a == b
+  | .str _ a, .str _ b => a == b
   | .list _ _ a, .list _ _ b => a == b
-  | _, _ => false
+  | .none, .none => true
+  | v, w => match numOf v, numOf w with
+    | some a, some b => a == b
+    | _, _ => false
 
 /-- `dict.__eq__`: same length, and every key of the left one is in the right one with an equal value -/
-def dictEq (a b : List (PStr × AVal)) : Bool :=
+def dictEq (a b : Attrs) : Bool :=
   a.length == b.length &&
   a.all fun kv => match b.lookup kv.1 with
-    | some w => valEq kv.2 w
-    | none => false
+    | some w => valEq kv.2.2 w.2
+    | Option.none => false
 
 mutual
 /-- `self is other`: two values denote the same object when they agree entirely, identities included -/
@@ -387,14 +533,19 @@ def neImpl (a b : Node) : Bool := !(eqImpl a b)
 inductive EVal where
   | str (s : PStr)
   | list (items : List PStr)
+  | num (n : Int)
+  | none
 deriving DecidableEq, Repr
 
 def AVal.val : AVal → EVal
-  | .str s => .str s
+  | .str _ s => .str s
   | .list _ _ items => .list items
+  | .int n => .num n
+  | .bool b => .num (if b then 1 else 0)
+  | .none => .none
 
 /-- the attributes as a finite map (what "the same attributes regardless of order" means) -/
-def attrMap (l : List (PStr × AVal)) (k : PStr) : Option EVal := (l.lookup k).map AVal.val
+def attrMap (l : Attrs) (k : PStr) : Option EVal := (l.lookup k).map fun e => e.2.val
 
 /-- what `==` can see of a tree: a string's text; a tag's name, its attributes as a map, its children -/
 inductive Canon where
@@ -439,10 +590,96 @@ inductive Below : Node → Node → Prop
   | kid {i d ks k} : k ∈ ks → Below (.tag i d ks) k
   | deeper {i d ks k x} : k ∈ ks → Below k x → Below (.tag i d ks) x
 
+/-! ### pickling a document: `BeautifulSoup.__getstate__` / `__setstate__` (bs4/__init__.py:505-541)
+
+    Generic in what a tree is (`T`), in the renderer `decode` and in the parser `feed` (C05 says what their composition is):
+    what matters here is **which markup** travels in the pickle. -/
+
+/-- the part of a `BeautifulSoup` object's `__dict__` that pickling reads and writes: the tree and the `markup` attribute
+    (`None` after `__init__`, which clears it; left set by `__setstate__`, which does not) -/
+structure PDoc (T : Type) where
+  tree : T
+  markup : Option PStr
+
+/-- `__getstate__`: `d = dict(self.__dict__); d["contents"] = []; d["markup"] = self.decode()` — the markup in the pickle
+    is always the rendering of the tree as it is now -/
+def getState {T : Type} (decode : T → PStr) (d : PDoc T) : PStr := decode d.tree
+
+/-- `__setstate__`: `self.__dict__ = state; …; self.reset(); self._feed()` — the tree is rebuilt from `state["markup"]`,
+    and `self.markup` keeps that string -/
+def setState {T : Type} (feed : PStr → T) (m : PStr) : PDoc T := ⟨feed m, some m⟩
+
+/-- `pickle.loads(pickle.dumps(doc))` -/
+def pickleRoundTrip {T : Type} (decode : T → PStr) (feed : PStr → T) (d : PDoc T) : PDoc T := setState feed (getState decode d)
+
+/-- a step of a document's life: an in-place edit of its tree, or being replaced by its pickle round trip -/
+inductive PStep (T : Type) where
+  | edit (f : T → T)
+  | pickle
+
+def pRun {T : Type} (decode : T → PStr) (feed : PStr → T) : PDoc T → List (PStep T) → PDoc T
+  | d, [] => d
+  | d, .edit f :: r => pRun decode feed { d with tree := f d.tree } r
+  | d, .pickle :: r => pRun decode feed (pickleRoundTrip decode feed d) r
+
+/-- the seeded variant of `__getstate__` (`if not d.get("markup"): d["markup"] = self.decode()`): a left-over, non-empty
+    `markup` is shipped instead of the rendering -/
+def getStateStale {T : Type} (decode : T → PStr) (d : PDoc T) : PStr :=
+  match d.markup with
+  | some (c :: m) => c :: m
+  | _ => decode d.tree
+
 /-! ### `hash` -/
 
+/-- the shape as a renderer that does not depend on the order of the attribute dict sees it (the default
+    `Formatter.attributes` sorts `tag.attrs.items()`): attributes as a finite map from key text to key kind and value -/
+inductive RShape where
+  | str (cls : Nat) (val : PStr)
+  | tag (d : SData) (attrs : PStr → Option (KMeta × SVal)) (kids : List RShape)
+
+mutual
+def rshapeOf : Shape → RShape
+  | .str c v => .str c v
+  | .tag d ks => .tag { d with attrs := [] } (fun k => d.attrs.lookup k) (rshapeOfL ks)
+def rshapeOfL : List Shape → List RShape
+  | [] => []
+  | k :: ks => rshapeOf k :: rshapeOfL ks
+end
+
 /-- `Tag.__hash__`: `str(self).__hash__()` = `hash(self.decode())`, for any renderer that reads the tree through its
-    identity-free shape and any string hash -/
-def hashImpl (render : Shape → PStr) (h : PStr → Nat) (inh : Option Bool) (t : Node) : Nat := h (render (shape inh t))
+    identity-free, attribute-order-free shape and any string hash -/
+def hashImpl (render : RShape → PStr) (h : PStr → Nat) (inh : Option Bool) (t : Node) : Nat :=
+  h (render (rshapeOf (shape inh t)))
+
+/-! #### what `==` does not look at -/
+
+/-- the kind and class of an attribute value, without its content -/
+inductive VDecor where
+  | str (cls : Nat) | list (cls : Nat) | int | bool | none
+deriving DecidableEq, Repr
+
+def AVal.decor : AVal → VDecor
+  | .str c _ => .str c
+  | .list _ c _ => .list c
+  | .int _ => .int
+  | .bool _ => .bool
+  | .none => .none
+
+/-- everything of the shape that `==` ignores: string classes; per tag the prefix, namespace, dict class and settings
+    (`SData` with name and attributes blanked), and per attribute key its key kind and the kind/class of its value -/
+inductive Decor where
+  | str (cls : Nat)
+  | tag (d : SData) (attrs : PStr → Option (KMeta × VDecor)) (kids : List Decor)
+
+mutual
+def decor (inh : Option Bool) : Node → Decor
+  | .str _ c _ => .str c
+  | .tag _ d ks =>
+    .tag { shapeData d (isXml inh d) with name := [], attrs := [] }
+      (fun k => (d.attrs.lookup k).map fun e => (e.1, e.2.decor)) (decorL (isXml inh d) ks)
+def decorL (inh : Option Bool) : List Node → List Decor
+  | [] => []
+  | k :: ks => decor inh k :: decorL inh ks
+end
 
 end BS.Copy
